@@ -22,9 +22,12 @@ import proofs
 from common import hx
 
 FILES = ["Model_mindex.v", "Proofs_mindex.v", "Proofs_mindex_mass.v", "Proofs_mindex_single.v", "Proofs_mindex_batched.v",
-         "Proofs_mindex_single_tm.v", "Proofs_mindex_single_o.v", "Proofs_mindex_single_thm.v", "Entry_mindex.v", "Extract_mindex.v"]
+         "Proofs_mindex_single_tm.v", "Proofs_mindex_single_o.v", "Proofs_mindex_single_thm.v", "Proofs_mindex_hist.v",
+         "gen/Gen_mindex.v", "Inst_mindex.v", "Inst_mindex_random.v", "Inst_mindex_random_o.v", "Inst_mindex_random_r.v",
+         "Inst_mindex_random_t.v", "Inst_mindex_random_h.v", "Inst_mindex_index.v", "Proofs_mindex_gen.v",
+         "Entry_mindex.v", "Extract_mindex.v"]
 PROP = "Properties/C14.v"
-FINDINGS = ["Findings/C14_quat.v", "Findings/C14_mass.v"]
+FINDINGS = ["Findings/C14_quat.v", "Findings/C14_mass.v", "Findings/C14_gen.v"]
 GROUP = "mindex"
 SYSTEMS = ["triclinic", "monoclinic", "orthorhombic", "rhombohedral", "tetragonal", "hexagonal"]
 GOOD_MASS = ("triclinic", "monoclinic", "orthorhombic")
@@ -41,6 +44,8 @@ KNOWN = {
         "the theoretical random-misorientation density for tetragonal integrates to about 0.945 over [0, 90], not 1",
     "C14:misorientations_random:mass:hexagonal":
         "the theoretical random-misorientation density for hexagonal integrates to about 0.977 over [0, 90], not 1",
+    "C14:misorientation_index:nan:no-pair-in-range":
+        "misorientation_index returns NaN (not a number in [0, 1]) when no pair angle lies in [0, theta_max]: np.histogram(density=True) divides 0 by 0; such angles exist because the operator lists are not the point groups and the float32 angle of a pair at exactly theta_max can round above it (tetragonal: identity and the half turn about (1,1,1) give 109.47 > 90; orthorhombic: identity and 120 degrees about (1,1,1) give 120.0000076 > 120)",
     "C14:misorientations_random:rhombohedral:AssertionError":
         "misorientations_random(k, k+1, rhombohedral) hits `assert False` for every bin k >= 104 (edges above round(2 atan(sqrt(1 + 2 a^2))) = 104 < theta_max = 120), so misorientation_index always raises for rhombohedral",
 }
@@ -157,6 +162,66 @@ def gen_textures(chk, tier):
         out[-2:] = [dict(system="triclinic", kind="clustered", n=200, os=texture(rng, "clustered", 200)),
                     dict(system="orthorhombic", kind="random", n=200, os=texture(rng, "random", 200))]
     return out
+
+
+SPECIAL_AXES = (("x", (1, 0, 0)), ("y", (0, 1, 0)), ("z", (0, 0, 1)), ("xy", (1, 1, 0)), ("xz", (1, 0, 1)),
+                ("yz", (0, 1, 1)), ("xyz", (1, 1, 1)), ("x-y", (1, -1, 0)))
+SPECIAL_DEGREES = (30, 45, 60, 90, 120, 135, 150, 180)
+
+
+def special_rotations():
+    """identity + rotations by the crystallographically special angles about low-index axes: pairs of these have
+    misorientation angles AT the ends of the admissible range (exactly 0, exactly theta_max) and just beyond"""
+    from scipy.spatial.transform import Rotation
+    out = {"id": np.eye(3)}
+    for ax, v in SPECIAL_AXES:
+        v = np.array(v, dtype=float) / np.linalg.norm(v)
+        for deg in SPECIAL_DEGREES:
+            out[f"{ax}{deg}"] = Rotation.from_rotvec(np.deg2rad(deg) * v).as_matrix()
+    return out
+
+
+BOUNDARY_FIXED = [("id", "x180"), ("id", "y180"), ("id", "z180"), ("id", "xy180"), ("id", "xyz120"), ("id", "xyz180"),
+                  ("id", "x90"), ("id", "x60"), ("x90", "y90"), ("x30", "xy180")]
+
+
+def gen_boundary(chk, tier):
+    """textures whose pair angles sit at the ends of the admissible range, for every lattice system:
+    two-grain textures (identity, c) for every special rotation c and a sample of the other pairs, copies of the
+    half-turn / third-turn pairs in rotated sample frames and with a common crystal-side factor (float32 rounding
+    to exactly theta_max happens in some frames only), and 3-/4-grain textures made of a grain, symmetry-equivalent
+    copies of it (two-fold rotations about the crystal axes) and a half-turn related grain"""
+    rng = np.random.default_rng(chk.seed + 33)
+    sp = special_rotations()
+    names = list(sp)
+    allpairs = [(a, b) for i, a in enumerate(names) for b in names[i + 1:] if a != "id"]
+    out = []
+    for sysname in SYSTEMS:
+        pairs = [("id", c) for c in names[1:]]
+        k = 30 if tier == "quick" else 400
+        pairs += [allpairs[i] for i in rng.choice(len(allpairs), k, replace=False)]
+        for a, b in pairs:
+            out.append(dict(system=sysname, kind="boundary", n=2, os=np.stack([sp[a], sp[b]]), label=f"{a}|{b}"))
+        for t in range(12 if tier == "quick" else 120):
+            a, b = BOUNDARY_FIXED[t % len(BOUNDARY_FIXED)]
+            Q = haar(rng, 1)[0]
+            os = np.stack([sp[a], sp[b]])
+            os = os @ Q.T if t % 2 == 0 else Q @ os
+            out.append(dict(system=sysname, kind="boundary-frame", n=2, os=os, label=f"{a}|{b}|{'frame' if t % 2 == 0 else 'crystal'}"))
+        for t in range(6 if tier == "quick" else 40):
+            g = haar(rng, 1)[0] if t % 2 else np.eye(3)
+            a, b = BOUNDARY_FIXED[t % len(BOUNDARY_FIXED)]
+            grains = [g, TWOFOLD[1 + t % 3] @ g, sp[b] @ g]
+            if t % 3 == 0:
+                grains.append(TWOFOLD[1 + (t + 1) % 3] @ sp[b] @ g)
+            out.append(dict(system=sysname, kind="boundary-copies", n=len(grains), os=np.stack(grains), label=f"copies|{b}"))
+    return out
+
+
+def in_range_count(angs, tmax):
+    """number of angles np.histogram(range=(0, tmax)) counts: the closed interval [0, tmax]"""
+    a = np.asarray(angs, dtype=float)
+    return int(((a >= 0) & (a <= tmax)).sum())
 
 
 def impl_call(f, *a, **k):
@@ -283,9 +348,11 @@ def correspondence(chk, tier):
         bad.append((dict(function="misorientation_angles"), f"unequal first dimensions: {r}"))
     # textures
     near_total = 0
+    bnd = chk.cov.setdefault("boundary", {})
     with Recorder() as rec:
-        for t in gen_textures(chk, tier):
+        for t in gen_textures(chk, tier) + gen_boundary(chk, tier):
             name, os, n = t["system"], t["os"], t["n"]
+            boundary = t["kind"].startswith("boundary")
             k = SYSTEMS.index(name)
             s = lattice(geo, name)
             bump("system", name); bump("kind", t["kind"]); bump("n_grains", n)
@@ -309,6 +376,24 @@ def correspondence(chk, tier):
                 bad.append((meta, "oracle hypothesis: " + f))
             B.add("matq", [], list(q[0]), expect_vec(bad, dict(meta, what="mat_of_quat(as_quat(o)) = o"), ("OK", flat(mats[0])), atol=1e-10, rtol=0))
             q1a, q2a, angs = acalls[0]
+            tmax_s = st._max_misorientation(s)
+            n_in = in_range_count(angs, tmax_s)
+            if boundary:
+                b = bnd.setdefault(name, {"textures": 0, "pairs": 0, "exactly_zero": 0, "exactly_theta_max": 0,
+                                          "above_theta_max": 0, "index_nan_no_pair_in_range": 0})
+                b["textures"] += 1
+                b["pairs"] += len(angs)
+                b["exactly_zero"] += int((angs == 0).sum())
+                b["exactly_theta_max"] += int((angs == tmax_s).sum())
+                b["above_theta_max"] += int((angs > tmax_s).sum())
+            # NaN is not a number in [0, 1]: a violation unless NO pair angle lies in [0, theta_max] (np.histogram then
+            # divides 0 by 0 -- the recorded finding C14:misorientation_index:nan:no-pair-in-range)
+            if r[0] == "OK" and not np.isfinite(float(r[1])):
+                if n_in > 0:
+                    bad.append((dict(meta, what="range"), f"misorientation_index returned {float(r[1])!r} although {n_in} of {len(angs)} pair angles lie in [0, {tmax_s}]"))
+                elif boundary:
+                    b["index_nan_no_pair_in_range"] += 1
+                chk.cov["index_nan_no_pair_in_range"] = chk.cov.get("index_nan_no_pair_in_range", 0) + 1
             npairs = n * (n - 1) // 2
             nops = len(geo.symmetry_operations(s))
             if q1a.shape != (npairs, nops, 4) or q2a.shape != (npairs, nops, 4):
@@ -317,7 +402,9 @@ def correspondence(chk, tier):
             # (a) histogram + index from the RECORDED angles: exact path
             B.add("mindex_angles", [k], flat(angs), expect_vec(bad, dict(meta, what="index from the recorded pair angles"),
                                                                ("OK", [r[1]]) if r[0] == "OK" else r, rtol=1e-10))
-            hh = impl_call(st.misorientation_hist, os, s)
+            with warnings.catch_warnings():
+                warnings.simplefilter("ignore")
+                hh = impl_call(st.misorientation_hist, os, s)
             rec.take()
             if hh[0] == "OK":
                 B.add("hist", [st._max_misorientation(s)], flat(angs),
@@ -358,8 +445,10 @@ def correspondence(chk, tier):
                 tol = 0.5 * float(np.abs(h_model - h_impl).sum()) + 1e-9
                 if abs(float(r[1]) - m[1][0]) > tol:
                     bad.append((dict(meta, what="full path"), f"implementation {float(r[1])!r} vs model {m[1][0]!r} (tolerance {tol:.2e})"))
-            B.add("mindex_full", [variant, k, n], flat(q), hfull)
-            if r[0] == "ERR":  # the index raises (rhombohedral): still compare the pair angles
+            if not boundary:
+                B.add("mindex_full", [variant, k, n], flat(q), hfull)
+            if r[0] == "ERR" or boundary:  # the index raises (rhombohedral) / boundary textures (the bin of an angle at theta_max
+                # flips with float32 rounding, so only the angles are compared through the full path): compare the pair angles
                 def hang(m, angs=angs, meta=meta, npairs=npairs):
                     if m[0] != "OK":
                         bad.append((dict(meta, what="pair angles"), f"model {m}"))
@@ -451,6 +540,17 @@ def witnesses():
             rep[f"C14:misorientations_random:mass:{name}"] = (abs(mass - 1) > 1e-3, f"sum over the {th} unit bins = {mass:.6f}")
         except Exception as e:  # noqa: BLE001
             rep[f"C14:misorientations_random:mass:{name}"] = (False, f"raised {type(e).__name__}")
+    from scipy.spatial.transform import Rotation
+    v111 = np.array([1.0, 1.0, 1.0]) / np.sqrt(3.0)
+    os2 = np.stack([np.eye(3), Rotation.from_rotvec(np.pi * v111).as_matrix()])
+    with warnings.catch_warnings():
+        warnings.simplefilter("ignore")
+        try:
+            mn = float(dg.misorientation_index(os2, geo.LatticeSystem.tetragonal))
+            rep["C14:misorientation_index:nan:no-pair-in-range"] = (
+                math.isnan(mn), f"misorientation_index([identity, half turn about (1,1,1)], tetragonal) = {mn!r}")
+        except Exception as e:  # noqa: BLE001
+            rep["C14:misorientation_index:nan:no-pair-in-range"] = (False, f"raised {type(e).__name__}")
     sy = geo.LatticeSystem.rhombohedral
     failing = []
     for i in range(120):
@@ -475,11 +575,24 @@ def oracle_texture(dg, st, geo, os, name, rng):
         return fails  # known finding: always raises
     with warnings.catch_warnings():
         warnings.simplefilter("ignore")
+        angs = None
         try:
-            m = float(dg.misorientation_index(os, s))
+            with Recorder() as rec:
+                m = float(dg.misorientation_index(os, s))
+                _, ac = rec.take()
+            if len(ac) == 1:
+                angs = np.asarray(ac[0][2], dtype=float)
         except Exception as e:  # noqa: BLE001
             return [f"raised {type(e).__name__}: {e}"]
         th = st._max_misorientation(s)
+        if not math.isfinite(m):
+            # NaN is not a number in [0, 1].  Recorded finding C14:misorientation_index:nan:no-pair-in-range: when NO pair
+            # angle lies in [0, theta_max] np.histogram divides 0 by 0; everything else is reported.
+            n_in = None if angs is None else in_range_count(angs, th)
+            if n_in == 0:
+                return fails
+            return [f"M-index is {m!r}, not a number in [0, 1], although {n_in} of {None if angs is None else len(angs)} pair angles lie in [0, {th}]"
+                    + (f" (pair angles {angs[:6].tolist()})" if angs is not None else "")]
         T = float(sum(st.misorientations_random(i, i + 1, s) for i in range(th)))
         upper = 1 + 1e-3 if name in GOOD_MASS else (1 + T) / 2 + 1e-9
         if not (-1e-12 <= m <= upper):
@@ -490,8 +603,18 @@ def oracle_texture(dg, st, geo, os, name, rng):
         if abs(m2 - m) > 1e-9:
             fails.append(f"M-index changes under a permutation of the grains: {m!r} -> {m2!r}")
         h, e = st.misorientation_hist(os, s)
+        h = np.asarray(h, dtype=float)
         if abs(h.sum() - 1) > 1e-9 or np.any(h < 0):
             fails.append("observed misorientation density is not a probability density on unit bins")
+        if angs is not None:
+            # the observed distribution is the normalised histogram of ALL pair angles in [0, theta_max] (1-degree bins,
+            # the last one closed: theta_max itself is an admissible angle)
+            href = np.histogram(angs, bins=th, range=(0, th), density=True)[0]
+            if h.shape != href.shape or not np.allclose(h, href, rtol=0, atol=1e-12, equal_nan=True):
+                j = int(np.nanargmax(np.abs(h - href))) if h.shape == href.shape else -1
+                fails.append(f"observed density differs from the normalised histogram of the {len(angs)} pair angles on [0, {th}] "
+                             f"(bin {j}: {h[j] if j >= 0 else None!r} vs {href[j] if j >= 0 else None!r}; "
+                             f"{int((angs == th).sum())} pair angles are exactly {th}, {in_range_count(angs, th)} lie in [0, {th}])")
         single = np.repeat(os[:1], max(2, len(os)), axis=0)
         ms = float(dg.misorientation_index(single, s))
         hs, _ = st.misorientation_hist(single, s)
@@ -554,6 +677,13 @@ def rebuilt_index(st, os, s):
     return float(th / (2 * len(h)) * np.abs(theory - h).sum())
 
 
+def same_value(a, b, tol=1e-12):
+    """equal results of the same call: both the same error, both NaN, or floats within tol"""
+    if isinstance(a, float) and isinstance(b, float):
+        return (math.isnan(a) and math.isnan(b)) or abs(a - b) <= tol
+    return a == b
+
+
 def oracle_sequence(dg, st, geo, os, seq, fresh=True):
     fails, vals = [], []
     with warnings.catch_warnings():
@@ -568,15 +698,14 @@ def oracle_sequence(dg, st, geo, os, seq, fresh=True):
             if isinstance(v, float):
                 try:
                     rb = rebuilt_index(st, os, s)
-                    if abs(rb - v) > 1e-9:
+                    if not same_value(rb, v, 1e-9):
                         fails.append(f"call {pos} ({name}) of the sequence {seq}: misorientation_index = {v!r} but "
                                      f"misorientation_hist + misorientations_random give {rb!r}")
                 except Exception:  # noqa: BLE001
                     pass
         for i, a in enumerate(seq):
             for j in range(i + 1, len(seq)):
-                if seq[j] == a and vals[i] != vals[j] and not (isinstance(vals[i], float) and isinstance(vals[j], float)
-                                                               and abs(vals[i] - vals[j]) <= 1e-12):
+                if seq[j] == a and not same_value(vals[i], vals[j]):
                     fails.append(f"the same call ({a}) gives {vals[i]!r} at position {i} and {vals[j]!r} at position {j} of the sequence {seq}")
         if fresh:
             ref = fresh_process_values(os, sorted(set(seq)))
@@ -584,8 +713,7 @@ def oracle_sequence(dg, st, geo, os, seq, fresh=True):
                 r = ref.get(name)
                 if r is None:
                     continue
-                same = (r == v) if not (isinstance(r, float) and isinstance(v, float)) else abs(r - v) <= 1e-12
-                if not same:
+                if not same_value(r, v):
                     fails.append(f"call {pos} ({name}) of the sequence {seq} in one process gives {v!r}, the same call as the "
                                  f"first call of a fresh process gives {r!r} (result depends on the call history)")
     return fails
@@ -616,9 +744,13 @@ def search(chk, extra=()):
             found.append((payload, fails))
 
     pool = [(m["os"], m["system"]) for m in extra if "os" in m and "system" in m and len(m["os"]) <= 60]
+    sp = special_rotations()
     for name in SYSTEMS:
         for kind in ("single", "tight", "random"):
             pool.append((texture(rng, kind, 6), name))
+        for a, b in BOUNDARY_FIXED:   # pair angles at the ends of the admissible range: exactly 0, exactly theta_max
+            pool.append((np.stack([sp[a], sp[b]]), name))
+        pool.append((np.stack([sp["id"], sp["x180"], sp["xyz120"], sp["xy180"]]), name))
     for os, name in pool:
         fails = oracle_texture(dg, st, geo, os, name, np.random.default_rng(chk.seed + 2))
         if fails:
